@@ -412,6 +412,29 @@ def _impl_node_apply(case):
     except Exception as e:
         return _classify(e)
 
+def _impl_edge_template(case):
+    """an edge template whose operators are given as an operator graph: EdgeIR.output wants exactly one output operator"""
+    import numpy as np
+    from pyrates import CircuitTemplate, NodeTemplate, OperatorTemplate, EdgeTemplate
+    op = OperatorTemplate(name="o1", equations=["v' = -v + s_in"], variables={"v": "output(0.5)", "s_in": "input(0.0)"})
+    n = NodeTemplate(name="n_t", operators=[op])
+    try:
+        ops = []
+        for o in case["ops"]:
+            variables = {o["output"]: "output(0.0)", "w_" + o["name"]: 0.5}
+            for i in o["inputs"]:
+                variables[i] = "input(0.0)"
+            eq = f"{o['output']} = w_{o['name']}*(" + " + ".join(o["inputs"]) + ")"
+            ops.append(OperatorTemplate(name=o["name"], equations=[eq], variables=variables))
+        et = EdgeTemplate(name="et", operators=ops)
+        c = CircuitTemplate(name="c", nodes={"a": n, "b": n},
+                            edges=[("a/o1/v", "b/o1/s_in", et, {"weight": 1.0}), ("b/o1/v", "a/o1/s_in", None, {"weight": 0.5})])
+        r = c.run(simulation_time=1.0, step_size=0.125, solver="euler", outputs={"v": "b/o1/v"}, backend="default",
+                  vectorize=case["vec"], verbose=False, clear=True)
+        return dict(r="ok", numbers=_has_numbers(r.values))
+    except Exception as e:
+        return _classify(e)
+
 def _impl_opgraph(case):
     from pyrates import NodeTemplate, OperatorTemplate
     ops = []
@@ -435,7 +458,7 @@ def impl(case):
     _CLEAN[0] = False
     try:
         return {"config": _impl_config, "mutant": _impl_mutant, "vname": _impl_vname, "verify_path": _impl_verify_path,
-                "node_apply": _impl_node_apply, "opgraph": _impl_opgraph, "option": _impl_option}[case["t"]](case)
+                "node_apply": _impl_node_apply, "opgraph": _impl_opgraph, "option": _impl_option, "edge_template": _impl_edge_template}[case["t"]](case)
     finally:
         reset_pyrates()
         _CLEAN[0] = True
@@ -453,7 +476,9 @@ def config_cases(rng, tier):
     f_early = [c for c in cases if c["be"] == "fortran" and c["vec"]]          # refused before compilation
     f_late = [c for c in cases if c["be"] == "fortran" and not c["vec"]]       # reach f2py (about 6 s each)
     if tier == "quick":
-        f_late = rng.sample(f_late, 3)
+        # always: one row that runs through FortranBackend._solve and one that is refused there after compilation
+        keep = [c for c in f_late if c["dl"] == "none" and c["inplace"] and c["en"] == "run" and c["so"] in ("euler", "other")]
+        f_late = keep + rng.sample([c for c in f_late if c not in keep], 2)
     return inproc, f_early + f_late
 
 def near_misses(name):
@@ -502,6 +527,28 @@ def option_cases(rng, tier):
         if k not in seen:
             seen.add(k); res.append(c)
     return res
+
+def edge_template_cases(rng, n):
+    """operator graphs of an edge template: chains / diamonds (one output operator), several output operators, cycles.
+    Every operator has at least one input; the first one takes the edge input e_in."""
+    E = lambda nm, i, o: dict(name=nm, inputs=i, output=o)
+    fixed = [[E("e1", ["e_in"], "e_out")],
+             [E("e1", ["e_in"], "e_mid"), E("e2", ["e_mid"], "e_out")],
+             [E("e1", ["e_in"], "e_o1"), E("e2", ["e_in"], "e_o2")],
+             [E("e1", ["e_in", "x2"], "x1"), E("e2", ["x1"], "x2")],
+             [E("e1", ["e_in"], "m1"), E("e2", ["m1"], "m2"), E("e3", ["m1"], "m3"), E("e4", ["m2", "m3"], "e_out")]]
+    out = [dict(t="edge_template", ops=ops, vec=vec) for ops in fixed for vec in (False, True)]
+    for _ in range(n):
+        k = rng.randint(2, 4)
+        ops = [E("e1", ["e_in"], "y1")]
+        for j in range(2, k + 1):
+            prev = [f"y{i}" for i in range(1, j)]
+            ins = rng.sample(prev, rng.randint(1, len(prev))) if rng.random() < 0.8 else ["e_in"]
+            ops.append(E(f"e{j}", ins, f"y{j}"))
+        if rng.random() < 0.2:                       # close a cycle
+            ops[0] = E("e1", ["e_in", f"y{k}"], "y1")
+        out.append(dict(t="edge_template", ops=ops, vec=rng.random() < 0.5))
+    return out
 
 def misspell(path, i, how="x"):
     parts = path.split("/")
@@ -705,6 +752,8 @@ def probe_term(case, res):
     if t == "node_apply":
         m = [x for x in pool() if x["name"] == case["model"]][0]
         return f"PNodeApply {cpath(m['nodes'][case['node']]['ops'])} {clist([f'({cstr(o)}, {cstr(v)})' for o, v in case['updates']])}"
+    if t == "edge_template":
+        return "PEdgeTemplate " + clist([f"(mko {cstr(o['name'])} {cpath(o['inputs'])} {cstr(o['output'])})" for o in case["ops"]])
     if t == "opgraph":
         return "POpGraph " + clist([f"(mko {cstr(o['name'])} {cpath(o['inputs'])} {cstr(o['output'])})" for o in case["ops"]])
     m, kind = case["model"], case["kind"]
@@ -828,7 +877,7 @@ def run_cases(ctx, cases):
             g = c["be"]
             w = {"default": 0.1, "torch": 0.16, "jax": 0.25, "fortran": 7.0}[g]
         else:
-            g, w = "front", {"mutant": 0.2, "verify_path": 0.25}.get(c["t"], 0.02)
+            g, w = "front", {"mutant": 0.2, "verify_path": 0.25, "edge_template": 0.2}.get(c["t"], 0.02)
         idx.setdefault(g, []).append(i)
         add(g, c, w)
     # fixed start-up cost per worker (import of torch / jax)
@@ -871,12 +920,21 @@ def check(ctx):
             muts += hier_mutants(m, ctx.rng, ctx.tier)
         cases = (load_corpus("C20") + inproc + fortran + muts + vname_cases(ctx.rng, 150 if quick else 1500)
                  + verify_path_cases(ctx.rng, 12 if quick else 80) + node_apply_cases(ctx.rng, 4 if quick else 20)
-                 + opgraph_cases(ctx.rng, 60 if quick else 600) + option_cases(ctx.rng, ctx.tier))
+                 + opgraph_cases(ctx.rng, 60 if quick else 600) + option_cases(ctx.rng, ctx.tier)
+                 + edge_template_cases(ctx.rng, 10 if quick else 100))
     only = os.environ.get("VERIF_C20_GROUPS")     # development aid: restrict the run to some groups (default,torch,jax,fortran,front)
     if only and not ctx.replay:
         keep = set(only.split(","))
         cases = [c for c in cases if (c["be"] if c["t"] in ("config", "option") else "front") in keep]
         ctx.note(f"RESTRICTED RUN (VERIF_C20_GROUPS={only}): not a full check")
+    if os.environ.get("VERIF_COVERAGE") and not ctx.replay:
+        # diagnostic mode only: under the coverage tracer the scipy DDE integrator dead-locks (futex wait, the per-case
+        # alarm cannot fire) when the right-hand side raises from inside the Fortran callback — the three matrix rows
+        # scipy / history / not vectorized / inplace_vectorfield=False / run are left out of a coverage pass
+        hang = lambda c: (c["t"] == "config" and c["so"] == "scipy" and c["dl"] in ("discrete", "past") and not c["vec"]
+                          and not c["inplace"] and c["en"] == "run" and c["be"] != "fortran")
+        ctx.note(f"COVERAGE RUN: {sum(1 for c in cases if hang(c))} rows that dead-lock under the tracer are skipped: not a full check")
+        cases = [c for c in cases if not hang(c)]
     t_run = time.time()
     outs = run_cases(ctx, cases)
     t_run = time.time() - t_run
